@@ -169,4 +169,12 @@ theorem append_inventory_assigned_back :
         e.2.1 = "(*ResourceManager).StoreDeferred") := by
   decide
 
+/-- the filter layers of a decoded stream are closed outermost first: a layer which runs a
+goroutine reading from the layers below (DCTDecode) is closed — and its goroutine waited for —
+before the pooled zlib reader below it goes back into the package-level pool.  Over the reviewed
+fact which is compared with container.go on every run. -/
+theorem close_order_outermost_first :
+    ∀ e ∈ closeOrder, e.2.2 = "lower-decreasing" ∧ (e.2.1 = "inner-first" ∨ e.2.1 = "") := by
+  decide
+
 end PdfVerif.C18concX
